@@ -341,6 +341,12 @@ impl Cx
 /// location of the trias / tridas executables built by `./check` from /repo's working tree
 pub fn repo_bin(name: &str) -> std::path::PathBuf
 {
+	// `./check` hands every run private copies of the executables (see build_harness)
+	if let Ok(dir) = std::env::var("TRION_BIN_DIR")
+	{
+		let p = std::path::PathBuf::from(dir).join(name);
+		if p.exists() {return p;}
+	}
 	let root = std::env::var("VERIF_ROOT").unwrap_or_else(|_| "/verif".to_owned());
 	std::path::PathBuf::from(root).join("harness/target/repo-bins/release").join(name)
 }
